@@ -38,6 +38,12 @@ def gen_cases(ctx, n, maxsize):
             # sub-block compression whose last sub-block is raw yet owns a sequence; the next block re-uses that sequence's distance
             kind, x = "subtail", datagen.subtail(rng, rng.choice([2, 3, 4]))
             api = "c2"; p = {100: rng.choice([13, 16, 17, 18, 19]), 130: rng.choice([400, 1340, 1340, 2000, 6000])}
+        if i % 60 in (17, 27):
+            # post-parse block splitter: a > 64 KiB sequence opening a partition (17); a raw partition that owns sequences followed by a
+            # partition that re-uses its distances (27)
+            kind = "splitlong" if i % 60 == 17 else "splitraw"
+            x = getattr(datagen, kind)(rng, rng.choice([2, 3])); api = "c2"; p = {100: rng.choice([16, 17, 18, 19])}
+            if rng.random() < 0.25: p[201] = 1
         d = b""
         if api in ("udict", "ucdict") or (api in ("c2", "adv") and rng.random() < 0.15):
             d = datagen.gen(rng, 8000)[1] + x[: rng.randint(0, min(len(x), 2000))]
